@@ -79,7 +79,7 @@ class C01(Check):
             wants = [0] + T.numbering(nblocks, wrap)
             ev = [(i, 0, T.ack(w)) for i, w in enumerate(wants)]
             yield T.mk_case(content, [], options=[("blksize", "8")], wrap=wrap, events=ev)
-        for wrap in ((0, 1) if not quick else (rng.choice([0, 1]),)):
+        for wrap in ((0, 1) if not quick else (0,)):
             nblocks = 65540
             content = bytes(i % 253 for i in range(8 * (nblocks - 1) + 5))
             wants = [0] + T.numbering(nblocks, wrap)
